@@ -24,6 +24,9 @@ pub fn judge(plan: &ExecPlan, stats: &mut Stats) -> (Vec<(String, String, String
     if r.shared_locks > 0 {
         stats.inc("probe:shared_lock_contended");
     }
+    if r.clock_reads > 0 {
+        stats.add("probe:clock_reads", r.clock_reads);
+    }
     if r.contended_lazies > 0 {
         stats.inc("probe:lazy_init_contended");
     }
@@ -90,6 +93,7 @@ pub fn draw_plan(rng: &mut Rng, index: u64, tier: Tier, stats: &mut Stats) -> Ex
         sched_seed: rng.next_u64(),
         fastrand_seed: draw_fastrand_seed(rng, stats),
         yield_in_loader: false,
+        clock: Some(draw_clock(rng)),
         tasks,
     }
 }
